@@ -75,6 +75,21 @@ class CallFrame:
     new_target: JSValue = None  # The new object for constructor calls
 
 
+class _ThrowThroughNative(Exception):
+    """A JavaScript throw whose handler lies below a native call.
+
+    Raised by VM._throw while script code runs inside a built-in (array
+    callback, accessor, valueOf, call/apply...) and the nearest handler
+    belongs to a frame outside that built-in: the Python frames of the
+    built-in are unwound first, then the interpreter loop that owns the
+    handler delivers the value.
+    """
+
+    def __init__(self, value: JSValue):
+        super().__init__("JavaScript exception propagating through native code")
+        self.value = value
+
+
 class ForInIterator:
     """Iterator for for-in loops."""
 
@@ -129,6 +144,8 @@ class VM:
         self.exception: Optional[JSValue] = None
         # (frame_idx, catch_ip, operand stack depth at TRY_START)
         self.exception_handlers: List[Tuple[int, int, int]] = []
+        # Call stack depth at entry of each active _call_callback
+        self._native_bases: List[int] = []
 
     def run(self, compiled: CompiledFunction) -> JSValue:
         """Run compiled bytecode and return result."""
@@ -230,6 +247,9 @@ class VM:
             except JSReferenceError as e:
                 # Convert Python JSReferenceError to JavaScript ReferenceError
                 self._handle_python_exception("ReferenceError", str(e))
+            except _ThrowThroughNative as e:
+                # Thrown by script code that a built-in was running
+                self._throw(e.value)
 
             # Check if frame was popped (return)
             if not self.call_stack:
@@ -2295,6 +2315,18 @@ class VM:
         self, callback: JSValue, args: List[JSValue], this_val: JSValue = None
     ) -> JSValue:
         """Call a callback function synchronously and return the result."""
+        # Remember where the frames of this native call start, so that a throw
+        # whose handler is below them leaves the native call first (_throw)
+        self._native_bases.append(len(self.call_stack))
+        try:
+            return self._run_callback(callback, args, this_val)
+        finally:
+            self._native_bases.pop()
+
+    def _run_callback(
+        self, callback: JSValue, args: List[JSValue], this_val: JSValue = None
+    ) -> JSValue:
+        """Interpreter loop of _call_callback: run until the callback returns."""
         if isinstance(callback, JSFunction):
             # Save current stack position AND call stack depth
             stack_len = len(self.stack)
@@ -2354,7 +2386,15 @@ class VM:
                     arg = bytecode[frame.ip]
                     frame.ip += 1
 
-                self._execute_opcode(op, arg, frame)
+                try:
+                    self._execute_opcode(op, arg, frame)
+                except JSTypeError as e:
+                    self._handle_python_exception("TypeError", str(e))
+                except JSReferenceError as e:
+                    self._handle_python_exception("ReferenceError", str(e))
+                except _ThrowThroughNative as e:
+                    # Thrown by script code that a nested built-in was running
+                    self._throw(e.value)
 
             # Get result from stack
             if len(self.stack) > stack_len:
@@ -2488,6 +2528,14 @@ class VM:
                 exc.set("columnNumber", column)
 
         if self.exception_handlers:
+            if (
+                self._native_bases
+                and self.exception_handlers[-1][0] < self._native_bases[-1]
+            ):
+                # The nearest handler is in a frame below the built-in that
+                # is running this script code: leave the built-in first
+                raise _ThrowThroughNative(exc)
+
             frame_idx, catch_ip, stack_depth = self.exception_handlers.pop()
 
             # Unwind call stack
